@@ -72,7 +72,7 @@ def c08_2(ctx):
     cd = [s_ for s_ in ast.walk(fn.node) if isinstance(s_, ast.Assign) and U(s_.targets[0]) == 'cols']
     if not cd or N(cd[0].value) != NS('[tuple(ts.columns) for ts in tss if is_df(ts) and ts.shape[1] > 1]'):
         ctx.fail(fn, cd[0] if cd else fn.node, 'column headers are not collected as ordered tuples of every multi-column frame')
-    calls_else = [c for s in split[0].orelse for c in calls_in(s, 'df_column')]
+    calls_else = [c for s in else_of(split[0]) for c in calls_in(s, 'df_column')]
     calls_same = [c for s in split[0].body for c in calls_in(s, 'df_column')]
     ctx.at_least(6, len(calls_else), 'df_column calls where columns can be missing')
     for c in calls_else:
